@@ -366,6 +366,16 @@ def shard_misc(p):
                     text = layout(tk, rng, mode)
                     reqs.append({"op": "query", "q": text})
                     meta.append(("deep:" + style + ":" + mode, text, v, depth))
+        for _ in range(p.get("n_deep", 0)):
+            e = exact.gen_chain(rng, rng.choice([17, 33, 65, 129, 257]))        # long flat chains (number of operands, not depth)
+            try:
+                v = exact.ev(e)
+            except Exception:
+                continue
+            for mode in ("single", "tight", "random"):
+                text = layout(tokens(e, "min"), rng, mode)
+                reqs.append({"op": "query", "q": text})
+                meta.append(("chain:min:" + mode, text, v, 20))
         for _ in range(p["n_rand"]):
             e = exact.gen_tree(rng, rng.randint(2, p["depth"]), max_digits=6, max_exp=6)
             try:
